@@ -5,6 +5,7 @@ import SkopsModel.Io.GetTree
 import SkopsModel.Io.Trace
 import SkopsModel.Io.Visualize
 import SkopsModel.Io.Value
+import SkopsModel.Lemmas.IoAudit
 import SkopsModel.Generated.Specs
 import SkopsModel.Generated.Skeletons
 import SkopsModel.Fs.Canon
@@ -313,7 +314,8 @@ def ioLoad (j : Json) : Json :=
       | some l =>
         let l := sortDedup l
         if l.isEmpty then
-          Json.mkObj [("verdict", "ok"), ("events", Json.arr ((traceOf tbl root).map (eventJson tbl)).toArray)]
+          Json.mkObj [("verdict", "ok"), ("events", Json.arr ((traceOf tbl root).map (eventJson tbl)).toArray),
+                      ("refsAudited", root.refsAuditedB tbl T)]
         else Json.mkObj [("verdict", "untrusted"), ("names", strArr l)]
     Json.mkObj [("r", "tree"), ("dump", Json.arr dump), ("untrusted", unt), ("perT", Json.arr perT.toArray)]
 
